@@ -1026,6 +1026,11 @@ val erase_sig_step : step0 -> step0
 
 val run_sign_steps : sexp -> sexp
 
+val verdicts :
+  string -> string -> (string * string) list -> step0 -> sexp list
+
+val run_roundtrip : sexp -> sexp
+
 val is_letter : ascii -> bool
 
 val is_ident : ascii -> bool
